@@ -115,6 +115,7 @@ func init() {
 		Rule: "typed value generators (nested lists/objects/any-objects/options/ranges/scalars, depth <= 3 quick / 4 thorough, unicode strings, empty containers, finite floats) producing correlated pairs/triples (copy, single-difference mutant, permuted key order); oracles: IsEqual reflexive/symmetric/transitive and equal to the model's structural equality in both value libraries; Clone equal and state-disjoint under 1-12 step mutation histories checked against two independent model values (VM library; interpreter values have no Clone); TypeAwareUnmarshal(Marshal(v)) == v and the in-program to_json/parse_json round trip on both backends; both libraries display equal values as the same text; exhaustive small table of 416 near-equal pairs; non-trivial = type depth >= 2 or >= 2 elements; distinct by value content",
 		Jobs: []Job{
 			{Name: "table", Run: "^TestTableSmall$", Shards: [2]int{1, 2}},
+			{Name: "strbuild", Run: "^TestTableStringBuilds$", Shards: [2]int{2, 2}},
 			{Name: "eq", Run: "^TestEq$", Checks: [2]int{30000, 300000}, Shards: [2]int{2, 8}},
 			{Name: "clone", Run: "^TestClone$", Checks: [2]int{30000, 200000}, Shards: [2]int{2, 8}},
 			{Name: "json", Run: "^TestJSON$", Checks: [2]int{30000, 300000}, Shards: [2]int{2, 8}},
